@@ -63,6 +63,25 @@ def sa_game(n: int, rnd: random.Random, kind: str = "int", neg_singletons: bool 
     return v
 
 
+def arbitrary_game(n: int, rnd: random.Random) -> list[Fraction]:
+    """any values at all (not superadditive in general): the computers are defined on every table with minimal
+    information, and C03 / C08 quantify over games of any class"""
+    v = [Fraction(rnd.randint(-12, 12), rnd.choice([1, 1, 2, 4])) for _ in range(2 ** n)]
+    v[0] = Fraction(0) if rnd.random() < 0.7 else v[0]
+    return v
+
+
+def undervalued_game(n: int, rnd: random.Random) -> list[Fraction]:
+    """superadditive except that all coalitions of one middle size are under-valued (a congestion-like game): the best
+    split of a larger coalition then has two parts that are both worth revealing"""
+    size_val = [Fraction(0)] + [Fraction(rnd.randint(3, 6))]
+    for s_ in range(2, n + 1):
+        size_val.append(size_val[-1] + size_val[1] + Fraction(rnd.randint(0, 3)))
+    k = rnd.randint(2, max(2, n - 1))
+    size_val[k] = size_val[k] - Fraction(rnd.randint(4, 9))
+    return [size_val[popcount(c)] + (Fraction(rnd.randint(0, 1)) if popcount(c) not in (0, 1, k) else 0) for c in range(2 ** n)]
+
+
 def additive_game(n: int, rnd: random.Random, kind: str = "int") -> list[Fraction]:
     w = [value_kind(rnd, kind) for _ in range(n)]
     return [sum((w[i] for i in range(n) if c >> i & 1), Fraction(0)) for c in range(2 ** n)]
